@@ -102,7 +102,9 @@ func (f *AppArmorProfileFile) resolveValues(input string) ([]string, error) {
 				if strings.Contains(v, VARIABLE.Tok()+varname+"}") {
 					return nil, fmt.Errorf("recursive variable found in: %s", varname)
 				}
-				newValues := strings.ReplaceAll(input, variable, v)
+				// Only this occurrence: a further reference to the same variable
+				// is expanded on its own, so that all combinations are produced
+				newValues := strings.Replace(input, variable, v, 1)
 				newValues = strings.ReplaceAll(newValues, "//", "/")
 				res, err := f.resolveValues(newValues)
 				if err != nil {
